@@ -1,1 +1,181 @@
-import Soa.Model.Exec
+import Soa.Lemmas.Positions
+import Batteries.Data.List.Perm
+/-!
+# C06 — iterators match std slice iterators under any consumption pattern
+
+The generated iterators zip one `slice::Iter`/`IterMut` per field (a nested field
+contributes its own generated iterator); on a lockstep container every component holds the
+same window of positions not yet yielded.  `next` takes the front position in every
+field, `next_back` the back position (`View.next`, `View.nextBack`).
+
+For every window, and every finite sequence of front/back steps — including steps past
+exhaustion: the positions yielded are those of double-ended iteration over the list of
+positions (`run_positions`), hence the elements yielded are those std's slice iterator
+yields on the rows (`run_rows`: same function, mapped); the exact length and the size hint
+after every step are the number of positions left (`len_after`); no position is yielded
+twice, so a mutable iterator hands out each element at most once (`yields_nodup`), and
+after `l` successful steps every position of the window has been yielded exactly once
+(`yields_all`).
+-/
+namespace Soa.C06
+open Soa View
+
+inductive Step | F | B
+  deriving DecidableEq, Repr
+
+/-- one step of the generated iterator on its window -/
+def stepW (w : Win) : Step → Option Nat × Win
+  | .F => View.next w
+  | .B => View.nextBack w
+
+/-- run a step sequence: what each step yields, and the final window -/
+def runW : List Step → Win → List (Option Nat) × Win
+  | [], w => ([], w)
+  | s :: ss, w => let r := stepW w s; let rr := runW ss r.2; (r.1 :: rr.1, rr.2)
+
+/-- double-ended iteration over a list (what `std::slice::Iter` does on `&[T]`) -/
+def stepL {α : Type} (xs : List α) : Step → Option α × List α
+  | .F => (xs.head?, xs.tail)
+  | .B => (xs.getLast?, xs.dropLast)
+
+def runL {α : Type} : List Step → List α → List (Option α) × List α
+  | [], xs => ([], xs)
+  | s :: ss, xs => let r := stepL xs s; let rr := runL ss r.2; (r.1 :: rr.1, rr.2)
+
+theorem positions_nil (w : Win) (h : w.l = 0) : w.positions = [] := by simp [Win.positions, h]
+
+theorem step_positions (w : Win) (s : Step) :
+    (stepW w s).1 = (stepL w.positions s).1 ∧ (stepW w s).2.positions = (stepL w.positions s).2 := by
+  cases s with
+  | F =>
+    simp only [stepW, stepL, View.next]
+    by_cases h : w.l = 0
+    · simp [h, positions_nil w h]
+    · obtain ⟨m, hm⟩ : ∃ m, w.l = m + 1 := ⟨w.l - 1, by omega⟩
+      simp [h, Win.positions, hm, List.range'_succ]
+  | B =>
+    simp only [stepW, stepL, View.nextBack]
+    by_cases h : w.l = 0
+    · simp [h, positions_nil w h]
+    · obtain ⟨m, hm⟩ : ∃ m, w.l = m + 1 := ⟨w.l - 1, by omega⟩
+      simp only [h, ↓reduceIte, Win.positions, hm, Nat.add_sub_cancel]
+      rw [List.range'_concat]
+      simp
+
+/-- **yields = double-ended iteration over the positions**, for every step sequence -/
+theorem run_positions : ∀ (ss : List Step) (w : Win),
+    (runW ss w).1 = (runL ss w.positions).1 ∧ (runW ss w).2.positions = (runL ss w.positions).2
+  | [], w => ⟨rfl, rfl⟩
+  | s :: ss, w => by
+    have h := step_positions w s
+    have ih := run_positions ss (stepW w s).2
+    simp only [runW, runL]
+    rw [h.2] at ih
+    exact ⟨by rw [h.1, ih.1], ih.2⟩
+
+theorem stepL_map {α β : Type} (f : α → β) (xs : List α) (s : Step) :
+    (stepL (xs.map f) s).1 = (stepL xs s).1.map f ∧ (stepL (xs.map f) s).2 = (stepL xs s).2.map f := by
+  cases s <;> simp [stepL, List.head?_map, List.getLast?_map, List.map_dropLast]
+
+/-- iteration commutes with reading: the elements yielded are the rows at the yielded
+    positions, i.e. what std's iterator yields on the slice of rows -/
+theorem runL_map {α β : Type} (f : α → β) : ∀ (ss : List Step) (xs : List α),
+    (runL ss (xs.map f)).1 = (runL ss xs).1.map (Option.map f) ∧ (runL ss (xs.map f)).2 = (runL ss xs).2.map f
+  | [], xs => ⟨rfl, rfl⟩
+  | s :: ss, xs => by
+    have h := stepL_map f xs s
+    have ih := runL_map f ss (stepL xs s).2
+    simp only [runL]
+    rw [h.2]
+    exact ⟨by rw [h.1, ih.1]; rfl, ih.2⟩
+
+/-- **elements**: for a window inside the parent, the rows at the yielded positions are
+    exactly what double-ended iteration over the visible rows yields -/
+theorem run_rows {α : Type} (R : List α) (d : α) (w : Win) (hw : w.s + w.l ≤ R.length) (ss : List Step) :
+    (runW ss w).1.map (Option.map (R.getD · d)) = (runL ss ((R.drop w.s).take w.l)).1 := by
+  rw [(run_positions ss w).1, ← (runL_map (R.getD · d) ss w.positions).1]
+  congr 2
+  apply List.ext_getElem
+  · simp [Win.positions]; omega
+  · intro i h1 h2
+    simp [Win.positions] at h1 h2 ⊢
+    have : w.s + i < R.length := by omega
+    simp [List.getD_eq_getElem?_getD, List.getElem?_eq_getElem this]
+
+/-- steps past exhaustion keep answering `None` and a length of 0 -/
+theorem exhausted_stays (w : Win) (h : w.l = 0) (s : Step) : stepW w s = (none, w) := by
+  cases s <;> simp [stepW, View.next, View.nextBack, h]
+
+theorem step_len (w : Win) (s : Step) : (stepW w s).2.l = w.l - 1 := by
+  cases s <;> simp only [stepW, View.next, View.nextBack] <;> split <;> simp_all
+
+/-- **exact length / size hint**: after the steps the window holds the positions not yet
+    yielded; its length is what `len()` and `size_hint()` report -/
+theorem len_after : ∀ (ss : List Step) (w : Win),
+    (runW ss w).2.l = w.l - ((runW ss w).1.filterMap id).length
+  | [], w => by simp [runW]
+  | s :: ss, w => by
+    have ih := len_after ss (stepW w s).2
+    simp only [runW]
+    rw [ih, step_len]
+    by_cases h : w.l = 0
+    · rw [exhausted_stays w h s]; simp [h]
+    · have : ∃ p, (stepW w s).1 = some p := by
+        cases s <;> simp [stepW, View.next, View.nextBack, h]
+      obtain ⟨p, hp⟩ := this
+      simp only [hp, List.filterMap_cons, id_eq, List.length_cons]
+      omega
+
+/-- a step yields a position of the window that is no longer in the remaining window -/
+theorem step_fresh (w : Win) (s : Step) (p : Nat) (h : (stepW w s).1 = some p) :
+    p ∈ w.positions ∧ p ∉ (stepW w s).2.positions ∧ ∀ q ∈ (stepW w s).2.positions, q ∈ w.positions := by
+  have hl : w.l ≠ 0 := by
+    intro h0; rw [exhausted_stays w h0 s] at h; simp at h
+  cases s with
+  | F =>
+    simp only [stepW, View.next, hl, ↓reduceIte, Option.some.injEq] at h ⊢
+    subst h
+    simp only [Win.positions, List.mem_range'_1]
+    exact ⟨by omega, by omega, fun q hq => by omega⟩
+  | B =>
+    simp only [stepW, View.nextBack, hl, ↓reduceIte, Option.some.injEq] at h ⊢
+    subst h
+    simp only [Win.positions, List.mem_range'_1]
+    exact ⟨by omega, by omega, fun q hq => by omega⟩
+
+/-- **each element at most once** (mutable iteration never hands out an element twice) -/
+theorem yields_nodup : ∀ (ss : List Step) (w : Win),
+    ((runW ss w).1.filterMap id).Nodup ∧ ∀ p ∈ (runW ss w).1.filterMap id, p ∈ w.positions
+  | [], w => by simp [runW]
+  | s :: ss, w => by
+    have ih := yields_nodup ss (stepW w s).2
+    simp only [runW]
+    cases hy : (stepW w s).1 with
+    | none =>
+      simp only [List.filterMap_cons, id_eq]
+      refine ⟨ih.1, fun p hp => ?_⟩
+      have := ih.2 p hp
+      cases s <;> simp only [stepW, View.next, View.nextBack] at hy this ⊢ <;> split at hy <;> simp_all
+    | some p =>
+      have hf := step_fresh w s p hy
+      simp only [List.filterMap_cons, id_eq, List.nodup_cons, List.mem_cons, forall_eq_or_imp]
+      refine ⟨⟨fun hp => hf.2.1 (ih.2 p hp), ih.1⟩, hf.1, fun q hq => hf.2.2 q (ih.2 q hq)⟩
+
+/-- **each element exactly once**: once the window is exhausted, every position of it has
+    been yielded exactly once (in front order from the front, reverse order from the back) -/
+theorem yields_all (ss : List Step) (w : Win) (h : (runW ss w).2.l = 0) :
+    ((runW ss w).1.filterMap id).Perm w.positions := by
+  have hn := yields_nodup ss w
+  have hl := len_after ss w
+  rw [h] at hl
+  have hlen : ((runW ss w).1.filterMap id).length = w.positions.length := by
+    have hle : ((runW ss w).1.filterMap id).length ≤ w.positions.length :=
+      (List.subperm_of_subset hn.1 hn.2).length_le
+    simp [Win.positions] at hle ⊢
+    omega
+  exact (List.subperm_of_subset hn.1 hn.2).perm_of_length_le (Nat.le_of_eq hlen.symm)
+
+/-! non-vacuity: window of 3 positions, steps F B B F F: yields 2, 4, 3, none, none -/
+example : (runW [.F, .B, .B, .F, .F] ⟨2, 3⟩).1 = [some 2, some 4, some 3, none, none] := by decide
+
+end Soa.C06
